@@ -198,6 +198,17 @@ def violation_key(op, klass, refs=None):
 def confirm(replay, verbose=False):
     mc = mcx.Mc()
     try:
+        if replay["kind"] == "ir":
+            old_mc = mcx._worker_mc
+            mcx._worker_mc = mc
+            try:
+                v, _ = work_ir([replay["ops"]])
+            finally:
+                mcx._worker_mc = old_mc
+            if verbose:
+                for k, w, _ in v:
+                    print(" ", k, "—", w)
+            return {k for k, _, _ in v}
         if replay["kind"] == "defs":
             from props import c15
             shared, doms = c15.def_domains()
@@ -479,6 +490,55 @@ def work_la(hists):
     return viol, len(hists)
 
 
+# ---------------------------------------------------------------------------------------------
+# intent-recovery mini-family: an expression whose intent attribute cannot be honoured, the recovery preference, and the getters -
+# a getter must not leave the stored expression different for the next one
+
+IR_EXPRS = [EXPRS[3],
+            terms.doc(row(mo("("), el("mtable", el("mtr", el("mtd", mi("n", arg="n"))), el("mtr", el("mtd", mi("k"))), intent="binomial($n,$k)"), mo(")"))),
+            terms.doc(el("msup", mi("x", arg="b"), mn("2"), intent="power($b,$zz)"))]
+IR_OPS = [["pref", "IntentErrorRecovery", "Error"], ["pref", "IntentErrorRecovery", "IgnoreIntent"], ["speech"], ["braille", ""], ["overview"], ["nav", "ZoomIn"]]
+
+
+def ir_histories(tier):
+    maxlen = 3 if tier == "quick" else 4
+    out = []
+    for e in IR_EXPRS:
+        for n in range(0, maxlen + 1):
+            for seq in itertools.product(range(len(IR_OPS)), repeat=n):
+                for g in ([2, 3] if tier == "quick" else [2, 3, 4]):
+                    out.append([["mathml", e]] + [IR_OPS[i] for i in seq] + [IR_OPS[g]])
+    return out
+
+
+def ir_reference(h):
+    pref = "IgnoreIntent"
+    for op in h:
+        if op[0] == "pref":
+            pref = op[2]
+    navs = [op for op in h[1:-1] if op[0] == "nav"]
+    return [["pref", "IntentErrorRecovery", pref], h[0]] + navs + [h[-1]]
+
+
+def work_ir(hists):
+    mc = mcx.worker_mc()
+    refs = [ir_reference(h) for h in hists]
+    _, got = mc.run_cases(SETUP, hists, fresh=True)
+    uniq = sorted({json.dumps(r, ensure_ascii=False) for r in refs})
+    _, rr = mc.run_cases(SETUP, [json.loads(u) for u in uniq], fresh=True)
+    rmap = {u: obs_norm(r[-1]) for u, r in zip(uniq, rr)}
+    viol = []
+    for h, a, r in zip(hists, got, refs):
+        x, y = obs_norm(a[-1]), rmap[json.dumps(r, ensure_ascii=False)]
+        if x != y:
+            nm = lambda o: f"{o[1]}={o[2]}" if o[0] == "pref" else ("set_mathml(I%d)" % (IR_EXPRS.index(o[1]) + 1) if o[0] == "mathml" else (o[0] if o[0] != "nav" else "nav(" + o[1] + ")"))
+            before = sorted({o[0] for o in h[1:-1] if o[0] not in ("pref",)})
+            viol.append((f"C10|history|intent-recovery|{h[-1][0]}|after:{'+'.join(before) or '-'}",
+                         f"call history [{', '.join(nm(o) for o in h)}]: the last call returned {short(x, 130)} but [{', '.join(nm(o) for o in r)}] in a fresh session returns {short(y, 130)}",
+                         {"kind": "ir", "ops": h}))
+    return viol, len(hists)
+
+
 def work_defs(item):
     """A -> B in one session over the corpus derived from the definitions files (the family is C15's; here its oracle is C10's own statement)"""
     from props import c15
@@ -491,6 +551,8 @@ def work_defs(item):
 
 
 def _dispatch(job):
+    if job[0] == "I":
+        return ("I",) + work_ir(job[1])
     if job[0] == "F":
         return ("F",) + work_defs(job[1:])
     if job[0] == "L":
@@ -713,6 +775,13 @@ def main(tier):
         run.merge_violations(viol)
         run.count("evaluations", n)
         transitions += n * 5
+    ih = ir_histories(tier)
+    run.count("intent_recovery_histories", len(ih))
+    for out in mcx.pmap(_dispatch, [("I", ih[i:i + 60]) for i in range(0, len(ih), 60)]):
+        _, viol, n = out
+        run.merge_violations(viol)
+        run.count("evaluations", n)
+        transitions += n * 4
     from props import c15
     shared, doms = c15.def_domains()
     if tier == "quick":
@@ -760,7 +829,7 @@ def main(tier):
              f"(b') the derived separator preferences written one at a time: every sequence over 4 separator writes and set_mathml up to length {3 if tier == 'quick' else 5}, then set_mathml and a getter, "
              f"against a fresh session with the final separator values; (b'') every sequence up to length 7 over (LanguageAuto=es, Language=en, Language=Auto) "
              + ("+ LanguageAuto=sv, Language=es " if tier == "thorough" else "") + "followed by set_mathml and speech, against the canonical switch-free way into the same model state; (b3) A -> B sessions over the corpus derived from the definitions files for "
-             + ("8 chosen" if tier == "quick" else "all") + " ordered pairs of languages / braille codes (the family is shared with C15); (c) {len(two)} two-thread and {len(three)} three-thread script tuples, ALL interleavings at API-call granularity under the controlled scheduler. "
+             + ("8 chosen" if tier == "quick" else "all") + " ordered pairs of languages / braille codes (the family is shared with C15); (b4) three expressions whose intent cannot be honoured: every sequence up to length " + ("3" if tier == "quick" else "4") + " over (IntentErrorRecovery=Error, =IgnoreIntent, speech, braille, overview, ZoomIn) followed by a getter, against [final preference, set_mathml, getter] in a fresh session; (c) {len(two)} two-thread and {len(three)} three-thread script tuples, ALL interleavings at API-call granularity under the controlled scheduler. "
              "states = distinct reference-model states (preferences, expression, navigation commands since set, observation) reached; transitions = API calls executed; "
              "distinct_nontrivial = distinct (model state, result) pairs",
         coverage_extra={"states": len(states), "transitions": transitions, "traces_validated_against_impl": len(sessions) + nsched,
